@@ -176,7 +176,7 @@ class InteractingNetworks(Network):
 
         #  determine number of cross links
         if cross_link_density is not None:
-            number_cross_links = int(cross_link_density * (N1 * N2))
+            number_cross_links = int(round(cross_link_density * (N1 * N2), 9))
             print("Setting number of cross links according to "
                   "chosen link density.")
         elif cross_link_density is None and number_cross_links is None:
@@ -238,18 +238,18 @@ class InteractingNetworks(Network):
 
         #  determine number of cross links
         if cross_link_density is not None:
-            number_cross_links = int(cross_link_density * (N1 * N2))
+            number_cross_links = int(round(cross_link_density * (N1 * N2), 9))
             print("Setting number of cross links according to chosen \
                   link density.")
         elif cross_link_density is None and number_cross_links is None:
-            number_cross_links = int(sum(cross_A.values()))
+            number_cross_links = int(cross_A.sum())
             print("Creating a null model for the given interacting networks.")
         #  else: take the explicitly chosen number of cross links
 
         if number_cross_links > (N1 * N2):
             print("The number of cross links exceeds maximum.")
             print("Setting link density of initial interacting network.")
-            number_cross_links = int(sum(cross_A.values()))
+            number_cross_links = int(cross_A.sum())
 
         #  retrieve adjacency matrix of the full interacting network
         A_new = network.sp_A.astype(int)
